@@ -88,7 +88,10 @@ def run(ctx):
     agg = N(rt) if rt is not None else None
     ok_shape = agg is not None and agg[0] == "aggr" and agg[1][0] == "adt" and agg[1][1] == ITER
     vals = dict(zip(agg[1][3], agg[2])) if ok_shape else {}
-    g = ok_shape and vals.get("current_section") == base and vals.get("remaining_sections") == n_t and vals.get("entry_size") == es_t
+    # the cursor is a raw pointer that starts at sections.as_ptr(), or a slice that starts as the section bytes themselves
+    cursor_name = "current_section" if "current_section" in vals else next((k_ for k_, v_ in vals.items() if v_ == secs), None)
+    cursor_is_slice = cursor_name is not None and cursor_name != "current_section"
+    g = ok_shape and (vals.get("current_section") == base or cursor_is_slice) and vals.get("remaining_sections") == n_t and vals.get("entry_size") == es_t
     ctx.check(g, "E1", "iterator-fields", "the iterator starts at sections.as_ptr() with remaining = number_of_sections and the tag's entry_size", A.site(),
               how="cursor=base, remaining=n, entry_size=es", why=str(vals)[:500])
     sp = vals.get("string_section")
@@ -155,12 +158,16 @@ def run(ctx):
             tail, head = be[0]
             lb = b.loop_blocks(head, tail)
             w = {x[1]: x for x in writes}
-            cur, rem = w.get("current_section"), w.get("remaining_sections")
+            cname = cursor_name or "current_section"
+            cur, rem = w.get(cname), w.get("remaining_sections")
             ok = cur is not None and rem is not None
             if ok:
                 def is_phi(t, fname):
                     return t[0] == "opq" and t[1] == "phi" and t[2] == 1 and len(t[3]) == 2 and t[3][1][2] == fname
                 c_ok = cur[2][0] == "ptrop" and cur[2][1] in ("offset", "add") and is_phi(cur[2][2], "current_section") and cur[2][3] == es_i and cur[2][4] == 1
+                if cursor_is_slice:
+                    # slice cursor: rest = rest.split_at(entry_size).1
+                    c_ok = cur[2][0] == "sub" and is_phi(cur[2][1], cname) and cur[2][2] == es_i and cur[2][3] == ("len", cur[2][1])
                 r_ok = rem[2][0] == "bin" and rem[2][1] == "Sub" and is_phi(rem[2][2], "remaining_sections") and rem[2][3] == ("c", 1)
                 once = all(x[0] in lb and b.dominates(x[0], tail) for x in (cur, rem))
                 ok = c_ok and r_ok and once
@@ -172,7 +179,10 @@ def run(ctx):
                     pl = N(somes[0].payload)
                     if pl[0] == "aggr" and pl[1][1] == SEC:
                         v = dict(zip(pl[1][3], pl[2]))
-                        sec_ok = is_phi(v.get("inner", ("x",)), "current_section") and v.get("entry_size") == es_i and \
+                        inner_v = v.get("inner", ("x",))
+                        if cursor_is_slice and inner_v[0] == "asptr":
+                            inner_v = inner_v[1]        # the start of the rest (= of its first entry_size bytes)
+                        sec_ok = is_phi(inner_v, cname) and v.get("entry_size") == es_i and \
                             v.get("string_section") == fld(selfv, itf["string_section"]["i"])
                         # yields iff section_type(section) != Unused
                         own = [N(f) for f in somes[0].own]
